@@ -393,11 +393,13 @@ def UpOutcome.good : UpOutcome → Bool
     reaches the registry (an index that is out of range or names a finished goroutine is
     skipped).  Every goroutine runs to its end whatever the others do (the errgroup has no
     context), then `g.Wait()`; the manifest PUT is sent iff no goroutine failed. -/
-def pushBody : List (List PushEv) → List Nat → List PushEv
-  | _, [] => []
+def pushBody : List (List PushEv) → List Nat → List PushEv × List (List PushEv)
+  | pend, [] => ([], pend)
   | pend, k :: sched =>
     match pend[k]? with
-    | some (e :: es) => e :: pushBody (pend.set k es) sched
+    | some (e :: es) =>
+      let r := pushBody (pend.set k es) sched
+      (e :: r.1, r.2)
     | _ => pushBody pend sched
 
 def enumFrom {α} : Nat → List α → List (Nat × α)
@@ -409,9 +411,9 @@ def pushPending (outs : List UpOutcome) : List (List PushEv) :=
 
 /-- request log of `Registry.Push`; `none` if the schedule does not run every goroutine to its end -/
 def pushTrace (outs : List UpOutcome) (sched : List Nat) : Option (List PushEv) :=
-  let body := pushBody (pushPending outs) sched
-  if body.length != ((pushPending outs).map List.length).sum then none
-  else some (body ++ (if outs.all (·.good) then [.manifest] else []))
+  let r := pushBody (pushPending outs) sched
+  if r.2.all List.isEmpty then some (r.1 ++ (if outs.all (·.good) then [.manifest] else []))
+  else none
 
 /-! ## Push (legacy, `server.PushModel`): strictly sequential -/
 
